@@ -42,8 +42,10 @@ int main(int argc, char** argv) {
     long ncases = 0;
     hz::for_each_case(args, [&](size_t idx, const std::string& line) {
         mj::Value c = mj::parse(line); ++ncases;
-        if (c.has("patch")) { patch_case<json>(idx, c, "json"); patch_case<ojson>(idx, c, "ojson"); }
-        else { diff_case<json>(idx, c, "json", true); diff_case<ojson>(idx, c, "ojson", false); }
+        if (c.has("patch")) { patch_case<json>(idx, c, "json"); patch_case<ojson>(idx, c, "ojson");
+                              jc::parsed_mode() = true; patch_case<json>(idx, c, "json-parsed"); patch_case<ojson>(idx, c, "ojson-parsed"); jc::parsed_mode() = false; }   // documents as the parser builds them
+        else { diff_case<json>(idx, c, "json", true); diff_case<ojson>(idx, c, "ojson", false);
+               jc::parsed_mode() = true; diff_case<json>(idx, c, "json-parsed", false); diff_case<ojson>(idx, c, "ojson-parsed", false); jc::parsed_mode() = false; }
     });
     mj::Value s = hz::rec("stat"); s.set("cases", (int64_t)ncases); s.set("checks", (int64_t)nchecks); hz::emit(s);
     return 0;
